@@ -588,7 +588,10 @@ Definition releasing (w : world) (b : base_event) : option (nat * inst * bool) :
     | None => None
     end in
   match b with
-  | BDrop i | BVerify i | BCloneFrom i _ => pending i true
+  | BDrop i | BVerify i => pending i true
+  | BCloneFrom i j =>
+    (* only when the event is going to happen (a refused clone_from touches nothing) *)
+    if Nat.eqb i j then None else match live_inst w j with Some _ => pending i true | None => None end
   | BNvid i => match pending i true with
                | Some (i, it, e) => if i_original it then None else Some (i, it, e)   (* refused on a clone: consumed and dropped *)
                | None => None
